@@ -254,8 +254,10 @@ func (xr *Reader) Seek(offset int64, whence int) (int64, error) {
 
 	// Query the index for the chunk to start decoding from.
 	// Attempt to use the subsequent record before resorting to binary search.
+	// The subsequent chunk holds pos if pos lies in [prev, curr); the start of
+	// a chunk is also accepted so that sequential reads visit empty chunks.
 	prev, curr := xr.idx.GetRecords(xr.ri)
-	if !(prev.RawOffset <= pos && pos <= curr.RawOffset) {
+	if !(prev.RawOffset <= pos && (pos < curr.RawOffset || pos == prev.RawOffset)) {
 		xr.ri = xr.idx.Search(pos)
 		prev, curr = xr.idx.GetRecords(xr.ri)
 	}
